@@ -44,4 +44,45 @@ decreasing_by
 def wrappedLines (wrap : Str → List Str) (s : Str) : List Str :=
   (splitlines s).flatMap fun line => if (wrap line).isEmpty then [[]] else wrap line
 
+/-! ### format: printf-style substitution, `%s` / `%d` / `%%` subset (docs: "Apply the given values to a printf-style
+  format string, like `string % values`") -/
+
+/-- the pieces of a format string -/
+inductive Seg where
+  | lit (c : Char)     -- an ordinary character
+  | pct                -- `%%`
+  | s                  -- `%s`
+  | d                  -- `%d`
+  deriving Repr, DecidableEq
+
+/-- reading a format string; `none`: a `%` that starts none of the three directives -/
+def parseFmt : Str → Option (List Seg)
+  | [] => some []
+  | '%' :: '%' :: rest => (parseFmt rest).map (Seg.pct :: ·)
+  | '%' :: 's' :: rest => (parseFmt rest).map (Seg.s :: ·)
+  | '%' :: 'd' :: rest => (parseFmt rest).map (Seg.d :: ·)
+  | '%' :: _ => none
+  | c :: rest => (parseFmt rest).map (Seg.lit c :: ·)
+
+/-- number of arguments a format consumes -/
+def nDir : List Seg → Nat
+  | [] => 0
+  | .s :: r => nDir r + 1
+  | .d :: r => nDir r + 1
+  | _ :: r => nDir r
+
+/-- substituting the arguments, in order; every argument must be used, `%d` needs a number -/
+def fill : List Seg → List FmtArg → FmtRes
+  | [], [] => .ok []
+  | [], _ :: _ => .typeError
+  | .lit c :: r, args => (fill r args).cons [c]
+  | .pct :: r, args => (fill r args).cons ['%']
+  | .s :: _, [] => .typeError
+  | .s :: r, a :: as => (fill r as).cons a.s
+  | .d :: _, [] => .typeError
+  | .d :: r, a :: as =>
+    match a.d with
+    | none => .typeError
+    | some d => (fill r as).cons d
+
 end JinjaV.C23
